@@ -17,8 +17,8 @@ LEVEL = "exploration"
 DESIGN_REF = "DESIGN.md §3 C02"
 RULE = (
     "Histories of Universe.add_vertex/remove_vertex, Vertex.add_to_universe/remove_from_universe, "
-    "Vertex(universes=[.. with repeats]) and Universe(vertices=[.. with repeats]) (lists, tuples, one-shot iterators), two universes built from one and the same list object, and bulk addition of 7-40 fresh members at once (membership-index size thresholds) over 1-3 universes and 1-3 plain "
-    "vertices where universes are themselves candidates for membership (nesting, self-membership).  "
+    "Vertex(universes=[.. with repeats]) and Universe(vertices=[.. with repeats]) (lists, tuples, one-shot iterators), two universes built from one and the same list object, bulk addition of 7-40 fresh members at once, universes constructed from 129-300 fresh vertices in ONE call, and churn (the first member of a universe leaves and joins again 5-70 times in a row, from alternating sides) - membership-index size thresholds and deferred clean-ups - over 1-3 universes and 1-3 plain "
+    "vertices (optionally of classes that are falsy, multiply inheriting, hashing by uid or slotted) where universes are themselves candidates for membership (nesting, self-membership).  "
     "Bounded-exhaustive for every history up to the stated length over 2 universes + 2 vertices (all four calls, "
     "every universe x every member candidate incl. the universes themselves), Hypothesis beyond.  After every "
     "call: v in U.vertices <=> U in v.universes for all pairs, neither list has a repeat, U.vertices equals the "
